@@ -187,6 +187,17 @@ class Unsigned(BitVector):
             rhs = -(rhs % 2**self.width)
 
         else:
+            if isinstance(rhs, Unsigned):
+                # negate at the width of the result,
+                # a narrower operand is zero extended first
+                if target_width is None:
+                    neg_width = max(self.width, rhs.width)
+                else:
+                    neg_width = target_width
+
+                if rhs.width < neg_width:
+                    rhs = rhs.resize(neg_width)
+
             rhs = -rhs
 
         return self.add(rhs, target_width)
